@@ -183,8 +183,8 @@ def run(prog, tier, res):
     else:
         res.violate(R4, PCRC, "padding", "payload_crc32c(): %s" % pad_bad[0], pb.where())
     prets = [field_names_subst(prog, psy.name(t)) for _, t in pan.ret_assignments()]
-    pw_ok = len(prets) == 1 and prets[0].startswith("not(crc32c::crc32c(Index::index(Iterator::collect(Iterator::chain(arg1.payload,Iterator::take(iter::repeat(0),")
-    if not pw_ok and len(prets) == 1 and prets[0] == "not(crc32c::crc32c(Index::index(mut(arg1.payload),RangeFull{})))":
+    pw_ok = len(prets) == 1 and prets[0].startswith("not(crc32c::crc32c(Iterator::collect(Iterator::chain(arg1.payload,Iterator::take(iter::repeat(0),")
+    if not pw_ok and len(prets) == 1 and prets[0] == "not(crc32c::crc32c(mut(arg1.payload)))":
         # `let mut v = self.payload.clone(); v.extend(repeat(0).take(padding));`: the copy is modified by exactly one
         # call, which appends the zero padding
         muts = []
